@@ -67,6 +67,9 @@ def main():
         sh(["git", "-C", REPO, "checkout", "-q", "--detach", head])
         sh(["rsync", "-a", "--exclude", "target", "--exclude", "/Cargo.toml", "--exclude", "/.cargo", "/verif/harness/", os.path.join(LAB, "harness") + "/"])
         sh(["cp", "/verif/known_findings.json", os.path.join(LAB, "out", "known_findings.json")])
+        # workspace manifest: same content, path dependencies re-pointed at the lab's worktree
+        top = open("/verif/harness/Cargo.toml").read().replace('"/repo/', '"%s/' % REPO)
+        open(os.path.join(LAB, "harness", "Cargo.toml"), "w").write(top)
     for d in dirs:
         d = os.path.abspath(d)
         patch = os.path.join(d, "patch.diff")
